@@ -313,7 +313,7 @@ func c19FragmentKey(r *core.Run) {
 			})
 		}
 	}
-	r.Floor("fragment-key-is-per-dmap(map ops)", cnt, 4)
+	r.Floor("fragment-key-is-per-dmap(map ops)", cnt, 2)
 	// (2) callers of wipeOutFragment pass dm.fragmentName (Destroy) or the raw Range key (janitor)
 	if w := p.Fn(fnWipeOut); w != nil {
 		for _, cs := range p.CallersOf(w.Obj) {
@@ -519,7 +519,7 @@ func fragmentNameNormalised(r *core.Run) {
 		}
 	}
 	r.Floor("fragment-name-normalised(sources)", sources, 4)
-	r.Floor("fragment-name-normalised(sinks)", total, 3)
+	r.Floor("fragment-name-normalised(sinks)", total, 2)
 }
 
 func c19EngineNotShared(r *core.Run) {
